@@ -47,6 +47,9 @@ def apply_tie(pid, viol, cov):
 
 def finish(pid, tier, level, viol, known, cov, assumptions, wall):
     apply_tie(pid, viol, cov)
+    if tier == "thorough":
+        lc = L.leanchecker_status()
+        cov["leanchecker"] = {"ok": lc["ok"], "modules": lc["modules"], "wall_s": lc["wall_s"]}
     findings = C.load_findings()
     for k in known:
         print("KNOWN-FINDING: property=%s %s" % (pid, k), flush=True)
